@@ -24,8 +24,10 @@ for d in sorted(glob.glob(ROOT + "/seeded/*")):
     summ = summ[:140] + ("…" if len(summ) > 140 else "")
     r = res.get(name, {})
     how = ("concrete input" if r.get("with_concrete_input") else ("correspondence / proof only" if r.get("violation_lines") else "NOT DETECTED")) if r else "not run"
-    first = "missed at first, strengthened" if (m.get("ran") or "").startswith(("missed", "found by")) else "caught"
-    origin = "agent" if re.search(r"-m\d+$", name) else ("revert of a fix" if "revert" in name else "hand-written")
+    ran = m.get("ran") or ""
+    first = "missed at first, strengthened" if ran.startswith(("missed", "found by")) else (
+        "correspondence only at first, oracle added" if "at first only the correspondence" in ran else "caught")
+    origin = "agent" if re.search(r"-(r\d+)?m\d+$", name) else ("revert of a fix" if "revert" in name else "hand-written")
     rows.append("| %s | %s | %s | %s | %s |" % (name, origin, summ, first, how))
 table = "| seed | origin | change | first run | quick check of its property now reports |\n|---|---|---|---|---|\n" + "\n".join(rows)
 det = sum(1 for r in res.values() if r.get("exit") == 1)
